@@ -129,6 +129,8 @@ def e2e_targets(rng, hist):
         pool += [rng.sample(ids, 2) for _ in range(2)]
     for l in labels:
         pool.append([l + "@head"])
+    for i in [x for x in ids if len(x) > 4][:3]:
+        pool.append([i[:-1]])
     return pool
 
 
